@@ -130,6 +130,41 @@ func KernelPart() mc.Part {
 				}
 			}
 		}
+		// the same lattice once more in another nesting order (time outermost, block hash innermost): a value that
+		// is a function of its inputs cannot depend on which evaluations came before it
+		var reordered int64
+		for ti, ts := range stamps {
+			for wi, who := range whos {
+				for si, so := range seeds {
+					for hi, hash := range hashes {
+						want, ok := out[[4]int{hi, ti, wi, si}]
+						if !ok {
+							continue
+						}
+						var got string
+						func() {
+							defer func() { _ = recover() }()
+							hc := append([]byte(nil), hash...)
+							if hash == nil {
+								hc = nil
+							}
+							sc := append([]byte(nil), so.seed...)
+							if so.seed == nil {
+								sc = nil
+							}
+							got = randomtypes.MakePRNG(hc, ts, append(sdk.AccAddress(nil), who...), sc, so.oracle).GetRand().FloatString(digits)
+						}()
+						reordered++
+						if got != want {
+							add("C18/kernel/depends-on-evaluation-order", "MakePRNG(hash=%x, time=%d, requester=%x, seed=%x, oracle=%v) gave %s when evaluated after the other timestamps of the same hash, %s when evaluated after another hash at the same timestamp",
+								hash, ts, []byte(who), so.seed, so.oracle, want, got)
+						}
+					}
+				}
+			}
+		}
+		evals += reordered
+		rep.Bounds["evaluation_orders"] = "hash>time>requester>seed and time>requester>seed>hash"
 		for k, v := range out {
 			if k[0] > 0 {
 				if o, ok := out[[4]int{k[0] - 1, k[1], k[2], k[3]}]; ok && !bytes.Equal(hashes[k[0]], hashes[k[0]-1]) {
